@@ -110,6 +110,8 @@ def attribute(job, ob):
     props = set(job["props"])
     is_gen = job["kind"] == "gen"
     out = set()
+    if kind == "og-inv":
+        return props
     if kind == "frame":
         return props - {"C17"} or props
     if kind == "await-effect":
